@@ -299,6 +299,10 @@ func (b *bufferWriter) expectBody(r *http.Request) bool {
 }
 
 func (b *bufferWriter) Close() error {
+	// a spill file is only removed by closing a reader of the buffer: take the data over if nobody has
+	if rdr, err := b.buffer.Reader(); err == nil {
+		_ = rdr.Close()
+	}
 	return b.buffer.Close()
 }
 
